@@ -1,8 +1,77 @@
+/-
+  C13: the lock-free task queue is a linearizable FIFO queue.
+  The model (Gnet/Model/Msq.lean) has one transition per atomic operation and carries ghost
+  state: the abstract atomic queue `absQ`, updated at exactly one point inside every
+  operation (the linearisation point: the successful CAS on `tail.next` for Enqueue, the
+  successful CAS on `head` for Dequeue), the logs of those points, and for a pending Dequeue
+  whether the abstract queue was empty when it read `head.next`.
+  All statements are for every reachable state: any number of threads, any programs, any
+  interleaving of single atomic operations.
+  Only property theorems and non-vacuity examples live here; helper lemmas and the
+  invariant are in Gnet/Proofs/Msq*.lean. Statements are never weakened to make a proof pass.
+-/
 import Gnet.Model.Msq
+import Gnet.Proofs.Msq
 namespace Gnet.Props.C13
 open Gnet.Msq
 
-theorem init_chain (n : Nat) : chain (init n) = [0] := by
-  simp [chain, init, chainFrom, nextOf]
+/-- FIFO bookkeeping of the linearisation points: what has been enqueued is what has been
+    dequeued followed by what is still queued - every dequeued task was enqueued, none twice,
+    in enqueue order; once the queue is drained (`absQ = []`) each exactly once. -/
+theorem msq_fifo (s : State) (h : Reachable s) : s.enqLog = s.deqLog ++ s.absQ :=
+  Proofs.Msq.fifo s h
+
+/-- the abstract queue is the concrete linked structure behind the head node -/
+theorem msq_abs_is_chain (s : State) (h : Reachable s) :
+    s.absQ = ((chain s).drop (posOf s s.head + 1)).map (valueOf s) :=
+  Proofs.Msq.abs_is_chain s h
+
+/-- a Dequeue returns exactly the value the atomic queue handed out at its linearisation point -/
+theorem msq_deq_value (s : State) (h : Reachable s) (tid : Nat) (t : Thread)
+    (ht : s.threads[tid]? = some t) (hpc : t.pc = .dSub) :
+    t.ghostRet = some t.task ∧ (step s tid).2 = some (.deqSome t.task) :=
+  Proofs.Msq.deq_value s h tid t ht hpc
+
+/-- a Dequeue reports 'empty' only if the queue was empty at an instant inside the call
+    (when it read `head.next`) -/
+theorem msq_empty_justified (s : State) (h : Reachable s) (tid : Nat) (t : Thread)
+    (ht : s.threads[tid]? = some t) (hr : (step s tid).2 = some .deqNone) :
+    t.ghostSawEmpty = true :=
+  Proofs.Msq.empty_justified s h tid t ht hr
+
+/-- the length counter lags behind the abstract queue by exactly the operations that have
+    passed their linearisation point but not yet their counter update -/
+theorem msq_length_lag (s : State) (h : Reachable s) :
+    s.length = (s.absQ.length : Int)
+      - (s.threads.countP (fun t => t.pc == .eCasTail || t.pc == .eAdd) : Nat)
+      + (s.threads.countP (fun t => t.pc == .dSub) : Nat) :=
+  Proofs.Msq.length_lag s h
+
+/-- when no operation is in flight `Length` is the number of queued tasks (and `IsEmpty`,
+    which tests `Length = 0`, agrees) -/
+theorem msq_quiescent (s : State) (h : Reachable s) (hq : ∀ t ∈ s.threads, t.pc = .idle) :
+    s.length = s.absQ.length :=
+  Proofs.Msq.quiescent s h hq
+
+/-- the dereference `next.value` in Dequeue never hits nil -/
+theorem msq_no_nil_deref (s : State) (h : Reachable s) (tid : Nat) (t : Thread)
+    (ht : s.threads[tid]? = some t) (hpc : t.pc = .dReloadHead) (hh : t.head = s.head)
+    (hne : t.head ≠ t.tail) : t.next ≠ none :=
+  Proofs.Msq.no_nil_deref s h tid t ht hpc hh hne
+
+/-- the tail pointer lags behind the last linked node by at most one node, and the head never
+    overtakes it -/
+theorem msq_tail_lag (s : State) (h : Reachable s) :
+    posOf s s.head ≤ posOf s s.tail ∧ posOf s s.tail < (chain s).length ∧
+    (chain s).length ≤ posOf s s.tail + 2 :=
+  Proofs.Msq.tail_lag s h
+
+-- non-vacuity: a reachable state with a linked but uncounted node and a lagging tail
+example : let s := runEvs (init 2) [.start 0 (.enq 5), .step 0, .step 0, .step 0, .step 0]
+    (s.absQ, s.length, posOf s s.tail, (chain s).length) = ([5], 0, 0, 2) := by decide
+-- and a Dequeue by the other thread that helps the tail forward and takes the task
+example : let s := runEvs (init 2) ([.start 0 (.enq 5), .step 0, .step 0, .step 0, .step 0, .start 1 .deq] ++
+      List.replicate 11 (.step 1))
+    (s.absQ, s.deqLog, s.length) = ([], [5], -1) := by decide
 
 end Gnet.Props.C13
